@@ -95,7 +95,7 @@ static std::string do_strips(const Case& c) {
 	return str_tris(GenerateTrianglesFromStrips(strips));
 }
 
-int oracle_util(int, char**) {
+static int oracle_util(int, char**) {
 	std::string line;
 	while (std::getline(std::cin, line)) {
 		if (line.empty())
@@ -127,3 +127,5 @@ int oracle_util(int, char**) {
 	}
 	return 0;
 }
+
+static Family reg("util", oracle_util);
